@@ -156,7 +156,10 @@ def unpack_attributes(attributes, namespace, default, restricted_namespace):
                         "Undefined namespace prefix: %s." % prefix,
                         attribute['name'])
                 else:
-                    ns = default
+                    # An undeclared prefix is foreign: the attribute is
+                    # kept, but it never takes the namespace (and with
+                    # it, possibly, the meaning) of the element.
+                    ns = XML_NS
         else:
             ns = default
         # Two attributes may share a key (``lang`` and ``xml:lang`` on an
